@@ -238,11 +238,11 @@ def check_valid(sym: Symbol, s: str) -> Tuple[bool, Optional[str]]:
         return True, None
 
     base = 10 if sym.orig_type == INT else 16
-    try:
-        # Symbol.set_value() accepts neither a negative hex value nor a sign in one (the text is applied as "0x" + text)
-        if (int(s, base) < 0 or s.strip()[0] in "+-") and sym.orig_type == HEX:
-            raise ValueError
-    except ValueError:
+    # The text is applied stripped, and Symbol.set_value() decides with _is_base_n(): what int() takes beyond that
+    # ("1_0", "+5") would be accepted here and then silently dropped. set_value() accepts neither a negative hex value
+    # nor a sign in one (the text is applied as "0x" + text)
+    text = s.strip()
+    if not _is_base_n(text, base) or (sym.orig_type == HEX and (int(text, base) < 0 or text[0] in "+-")):
         return False, f"'{s}' is a malformed {TYPE_TO_STR[sym.orig_type]} value"
 
     for low_sym, high_sym, cond in sym.ranges:
